@@ -49,7 +49,7 @@ def precheck(case):
 
 
 def budget(tier):
-    return 1000 if tier == "quick" else 20000
+    return 4000 if tier == "quick" else 40000
 
 
 def strategy(tier):
